@@ -139,19 +139,26 @@ def run_documents(ck, T, n, depth, prop="C01"):
             ["id", {"s": "specials"}], ["notes", {"s": "a < b && c > d \"q\" 'a' ]]> \n second line &amp; &lt;"}],
             ["properties", {"l": [{"cls": "Property", "kw": [["tag", {"s": "5' 11\""}], ["value", {"s": "x\ny & <z> ]]>"}]]}]}]]}},
     ]
-    out = ck.try_impl("gds_impl.py", {"mode": "document", "order": order, "cases": cases}, timeout=ck.n(900, 3600), label="documents")
-    res = out["results"] if out else []
     # the interpreter's configuration is not input: the same documents under `python -O` (asserts stripped), with another hash
-    # seed (set/dict iteration order) and from another working directory must give the same bytes and the same documents
+    # seed (set/dict iteration order) from another working directory, and in a non-UTF-8 locale must give the same bytes and the
+    # same documents (the four runs execute side by side)
+    sub = cases[:10] + cases[-3:]
+    configs = (("python -O", {"pyflags": ["-O"]}),
+               ("PYTHONHASHSEED=3, cwd=/", {"extra_env": {"PYTHONHASHSEED": "3"}, "cwd": "/"}),
+               ("LC_ALL=C without UTF-8 mode", {"extra_env": {"LC_ALL": "C", "LANG": "C", "PYTHONUTF8": "0", "PYTHONCOERCECLOCALE": "0",
+                                                              "PYTHONIOENCODING": "utf-8"}}))
+    from concurrent.futures import ThreadPoolExecutor
+    with ThreadPoolExecutor(max_workers=4) as ex:
+        fmain = ex.submit(ck.try_impl, "gds_impl.py", {"mode": "document", "order": order, "cases": cases},
+                          timeout=ck.n(900, 3600), label="documents")
+        fcfg = [(label, ex.submit(ck.try_impl, "gds_impl.py", {"mode": "document", "order": order, "cases": sub}, timeout=900,
+                                  label="documents[%s]" % label, **kw)) for label, kw in configs]
+        out = fmain.result()
+        cfg_out = [(label, f.result()) for label, f in fcfg]
+    res = out["results"] if out else []
     if res:
-        sub = cases[:10] + cases[-3:]
         ref = res[:10] + res[-3:]
-        for label, kw in (("python -O", {"pyflags": ["-O"]}),
-                          ("PYTHONHASHSEED=3, cwd=/", {"extra_env": {"PYTHONHASHSEED": "3"}, "cwd": "/"}),
-                          ("LC_ALL=C without UTF-8 mode", {"extra_env": {"LC_ALL": "C", "LANG": "C", "PYTHONUTF8": "0", "PYTHONCOERCECLOCALE": "0",
-                                                                         "PYTHONIOENCODING": "utf-8"}})):
-            o2 = ck.try_impl("gds_impl.py", {"mode": "document", "order": order, "cases": sub}, timeout=300,
-                             label="documents[%s]" % label, **kw)
+        for label, o2 in cfg_out:
             for case, a, b in zip(sub, ref, (o2 or {}).get("results", [])):
                 ck.tally("document-other-interpreter-configuration")
                 if label.startswith("LC_ALL=C"):
